@@ -142,9 +142,12 @@ def bracket(m, lv, cn, pos):
     return k, k + 1, False
 
 
-def close(g, w, rtol):
-    """Closeness that treats equal infinities and NaN-vs-NaN as equal."""
+def close(g, w, rtol, scale=None):
+    """Closeness that treats equal infinities and NaN-vs-NaN as equal.  `scale` = magnitude of the
+    interpolated samples: two samples of opposite sign nearly cancel, and the error of their convex
+    combination is relative to the samples, not to the (tiny) result."""
     g = np.asarray(g, dtype=float)
     w = np.asarray(w, dtype=float)
     with np.errstate(all="ignore"):
-        return (np.abs(g - w) <= rtol * np.abs(w)) | (g == w) | (np.isnan(g) & np.isnan(w))
+        ref = np.abs(w) if scale is None else np.maximum(np.abs(w), np.where(np.isfinite(scale), scale, 0.0))
+        return (np.abs(g - w) <= rtol * ref) | (g == w) | (np.isnan(g) & np.isnan(w))
